@@ -1041,21 +1041,47 @@ def _scalars(src, consts):
 
 
 def _buffers(src, out):
-    sizes = []
+    """the size every MessageBuffer vector is built with, by role (send / receive side of the data resp. size phase)"""
+    res = {}
     for fn in ("communicateFixedSize", "communicateSizes", "communicateVariableSize"):
         body, _ = _region(src, r"VariableSizeCommunicator\s*<\s*Allocator\s*>\s*::\s*" + fn + r"\s*\([^)]*\)\s*\{", fn)
-        k = 0
-        for m in re.finditer(r"MessageBuffer\s*<[^;()]*?>\s*\(", body):
+        sizes = {}
+        for m in re.finditer(r"(\w+)\s*\(\s*[^,;]*?,\s*MessageBuffer\s*<[^;()]*?>\s*\(", body):
             j = _match(body, m.end() - 1, "(", ")")
             e = _P(_tokens(_norm(body[m.end():j]))).expr()
             env = Env({"maxBufferSize_": ("maxBufferSize", "nat"), "interface_.size()": ("ifaceCount", "nat")}, _STD)
-            sizes.append(nat(conv(e, env)))
-            k += 1
-        if k == 0:
-            raise TranslateError("%s: no MessageBuffer constructed" % fn)
+            sizes[m.group(1)] = nat(conv(e, env))
+        nb = re.sub(r"\b(\w+)\s*<[^;()]*?>\s*\(\s*\)", r"\1()", body)
+        role = {}
+        for m in re.finditer(r"\bsetupRequests\s*\(", nb):
+            j = _match(nb, m.end() - 1, "(", ")")
+            a = [re.sub(r"\s+", "", x) for x in _split(nb[m.end():j])]
+            if len(a) == 6 and a[4] in ("SetupSendRequest()", "SetupRecvRequest()"):
+                role[a[2]] = "send" if a[4] == "SetupSendRequest()" else "recv"
+        for m in re.finditer(r"\breceiveSizeAndSetupReceive\s*\(", nb):
+            j = _match(nb, m.end() - 1, "(", ")")
+            a = [re.sub(r"\s+", "", x) for x in _split(nb[m.end():j])]
+            if len(a) == 6:
+                role[a[4]] = "recv"
+        got = {}
+        for name, sz in sizes.items():
+            if name not in role:
+                raise TranslateError("%s: MessageBuffer vector '%s' is not set up by setupRequests / receiveSizeAndSetupReceive" % (fn, name))
+            if role[name] in got:
+                raise TranslateError("%s: two %s buffer vectors" % (fn, role[name]))
+            got[role[name]] = sz
+        if set(got) != {"send", "recv"}:
+            raise TranslateError("%s: one send and one receive buffer vector expected" % fn)
+        res[fn] = got
     out.append("set_option linter.unusedVariables false in")
-    out.append("/-- the size every `MessageBuffer<..>(..)` of communicateFixedSize / communicateSizes / communicateVariableSize is built with -/")
-    out.append("def bufferSizes (maxBufferSize ifaceCount : Nat) : List Nat := [%s]" % ", ".join(sizes))
+    out.append("/-- (send buffer size, receive buffer size) of the data phase in communicateFixedSize and communicateVariableSize -/")
+    out.append("def dataBuffers (maxBufferSize ifaceCount : Nat) : List (Nat × Nat) := [(%s, %s), (%s, %s)]" % (
+        res["communicateFixedSize"]["send"], res["communicateFixedSize"]["recv"],
+        res["communicateVariableSize"]["send"], res["communicateVariableSize"]["recv"]))
+    out.append("set_option linter.unusedVariables false in")
+    out.append("/-- (send buffer size, receive buffer size) of the size exchange in communicateSizes -/")
+    out.append("def sizeBuffers (maxBufferSize ifaceCount : Nat) : Nat × Nat := (%s, %s)" % (
+        res["communicateSizes"]["send"], res["communicateSizes"]["recv"]))
 
 
 def _defaults(src, consts):
@@ -1066,6 +1092,11 @@ def _defaults(src, consts):
             vals.append(int(re.match(r"\d+", m.group(1)).group(0)))
     for m in re.finditer(r"\bmaxBufferSize_\s*=\s*(\d+)[uUlL]*\s*;", cls):
         vals.append(int(m.group(1)))
+    # delegating constructors: `: VariableSizeCommunicator(comm, inf, 32768)`
+    for m in re.finditer(r":\s*VariableSizeCommunicator\s*\(([^(){};]*(?:\([^()]*\)[^(){};]*)*)\)\s*\{", cls):
+        last = _split(m.group(1))[-1].strip()
+        if re.fullmatch(r"\d+[uUlL]*", last):
+            vals.append(int(re.match(r"\d+", last).group(0)))
     if not vals:
         raise TranslateError("no numeric default for maxBufferSize_ found")
     consts["defaultBufferSizes"] = vals
@@ -1230,25 +1261,227 @@ def _size_handle(src, out):
     out.append("def sizeHandleGather (sizeOf : Nat → Nat) (i : Nat) : List Nat := [%s]" % ", ".join(items))
 
 
-def _progress(src, out):
-    """data tables: counters <- count_if over which request vector; wrappers -> functors and flags"""
+def _check_and_continue(src, out):
+    """the body of the loop over the completed requests in checkAndContinue -> Gen.checkAndContinueBody"""
+    body, m = _region(src, r"std\s*::\s*size_t\s+checkAndContinue\s*\(([^)]*)\)\s*\{", "checkAndContinue")
+    ptxt = m.group(1)
+    ps = _params(ptxt)
+    if len(ps) != 10:
+        raise TranslateError("checkAndContinue: 10 parameters expected, found %d" % len(ps))
+    H, TR, RQ, RQ2, BUF, COMM, BF, CF, VALID, GETCOUNT = ps
+    dv = re.search(r"\b" + VALID + r"\s*=\s*(true|false)", ptxt)
+    dg = re.search(r"\b" + GETCOUNT + r"\s*=\s*(true|false)", ptxt)
+    if not dv or not dg:
+        raise TranslateError("checkAndContinue: defaults of valid / getCount not found")
+    out.append("/-- default arguments (valid, getCount) of `checkAndContinue` -/")
+    out.append("def ccDefaults : Bool × Bool := (%s, %s)" % (dv.group(1), dg.group(1)))
+    ts = re.search(r"MPI_Testsome\s*\(", body)
+    if not ts:
+        raise TranslateError("checkAndContinue: MPI_Testsome not found")
+    j = _match(body, ts.end() - 1, "(", ")")
+    a = [key(x) for x in _P(_tokens(body[ts.start():j + 1])).expr()[2]]
+    if len(a) != 5 or a[1] not in ("&" + RQ + "[0]", RQ + ".data()"):
+        raise TranslateError("checkAndContinue: MPI_Testsome does not test `%s` (%s)" % (RQ, a))
+    nc = a[2].lstrip("&")
+    idx = re.match(r"&?(\w+)", a[3]).group(1)
+    stv = re.match(r"&?(\w+)", a[4]).group(1)
+    if not re.search(r"\b" + idx + r"\s*\.\s*resize\s*\(\s*" + nc + r"\s*\)", body):
+        raise TranslateError("checkAndContinue: the index list is not cut to the number of completed requests")
+    fm = re.search(r"\bfor\s*\(", body[j:])
+    if not fm:
+        raise TranslateError("checkAndContinue: loop over the completed requests not found")
+    f0 = j + fm.end() - 1
+    f1 = _match(body, f0, "(", ")")
+    head = body[f0:f1]
+    mi = re.search(r"(\w+)\s*=\s*" + idx + r"\s*\.\s*begin\s*\(\s*\)", head)
+    if not mi or not re.search(idx + r"\s*\.\s*end\s*\(\s*\)", head):
+        raise TranslateError("checkAndContinue: the loop does not run over all completed requests")
+    IT = mi.group(1)
+    k = body.index("{", f1)
+    k1 = _match(body, k)
+    loop = body[k + 1:k1]
+    rest = [s for s in _parse_body(_norm(body[k1 + 1:]))]
+    if len(rest) != 1 or rest[0][0] != "return" or key(rest[0][1]) != nc:
+        raise TranslateError("checkAndContinue: does not return the number of completed requests")
+    mt = re.search(r"InterfaceTracker\s*&\s*(\w+)\s*=\s*(\w+)\s*\[\s*\*\s*(\w+)\s*\]\s*;", loop)
+    if not mt or mt.group(2) != TR or mt.group(3) != IT:
+        raise TranslateError("checkAndContinue: tracker is not %s[*%s]" % (TR, IT))
+    T = mt.group(1)
+    loop = loop[:mt.start()] + loop[mt.end():]
+    st = [x for x in _parse_body(_norm(loop)) if not _is_assert(x)]
+    sub = "*" + IT
+    BUFI, RQ2I = "%s[%s]" % (BUF, sub), "%s[%s]" % (RQ2, sub)
+    env = Env({T + ".finished()": ("(trackerFinished t.index t.ifaceSize)", "bool"),
+               T + ".indicesLeft()": ("(indicesLeft t.index t.ifaceSize)", "nat"),
+               T + ".empty()": ("(trackerEmpty t.ifaceSize)", "bool"),
+               VALID: ("valid", "bool"), GETCOUNT: ("getCount", "bool")}, _STD)
+    lines = []
+    seen_bf = [False]
+    seen_ri = [False]
+
+    def bf_call(stmts):
+        """statements of one branch of the buffer_func call: returns the Lean call"""
+        cnt = None
+        call = None
+        for x in stmts:
+            if x[0] == "decl" and x[2] is None:
+                cnt = x[1]
+            elif x[0] == "expr" and x[1][0] == "call" and key(x[1][1]) == "MPI_Get_count":
+                aa = [key(y) for y in x[1][2]]
+                want = "&%s[(%s-%s.begin())]" % (stv, IT, idx)
+                if len(aa) != 3 or aa[0] != want or aa[1] != "MPITYPE" or cnt is None or aa[2] != "&" + cnt:
+                    raise TranslateError("checkAndContinue: MPI_Get_count(%s) does not read the status at the position in the completed list" % ",".join(aa))
+            elif x[0] == "expr" and x[1][0] == "call" and key(x[1][1]) == BF:
+                aa = [key(y) for y in x[1][2]]
+                if aa[:3] != [H, T, BUFI] or len(aa) > 4 or (len(aa) == 4 and aa[3] != cnt):
+                    raise TranslateError("checkAndContinue: buffer_func called with %s" % aa)
+                call = "bufferFunc t b %s acc" % ("count" if len(aa) == 4 else "0")
+            else:
+                raise TranslateError("checkAndContinue: statement outside the grammar next to buffer_func")
+        if call is None:
+            raise TranslateError("checkAndContinue: branch without buffer_func")
+        return call
+
+    def seq(stmts, ind, top):
+        for i, x in enumerate(stmts):
+            if x[0] == "expr" and x[1][0] == "call" and key(x[1][1]) == "setReceivingIndex":
+                if [key(y) for y in x[1][2]] != [H, sub] or seen_bf[0]:
+                    raise TranslateError("checkAndContinue: setReceivingIndex(handle, *index) before buffer_func expected")
+                seen_ri[0] = True
+            elif x[0] == "if" and not seen_bf[0]:
+                if x[3] is None:
+                    raise TranslateError("checkAndContinue: buffer_func is not called on every path")
+                c = boo(conv(x[1], env))
+                lines.append("%slet r := if %s then %s else %s" % (ind, c, bf_call(_unblock(x[2])), bf_call(_unblock(x[3]))))
+                lines.extend([ind + "let t := r.1", ind + "let b := r.2.1", ind + "let acc := r.2.2",
+                              ind + "let g : Option γ := none", ind + "let uncounted := false"])
+                seen_bf[0] = True
+            elif not seen_bf[0]:
+                raise TranslateError("checkAndContinue: statement before buffer_func outside the grammar")
+            elif x[0] == "expr" and key(x[1]) == T + ".skipZeroIndices()":
+                lines.append(ind + "let t := skipZeroIndices t")
+            elif x[0] == "expr" and x[1][0] == "call" and key(x[1][1]) == CF:
+                aa = [key(y) for y in x[1][2]]
+                if aa != [H, T, BUFI, RQ2I, COMM]:
+                    raise TranslateError("checkAndContinue: comm_func called with %s" % aa)
+                lines.extend([ind + "let q := commFunc t b", ind + "let t := q.1", ind + "let b := q.2.1",
+                              ind + "let g := some q.2.2"])
+            elif x[0] == "if" and x[3] is None and [key(y[1]) for y in _unblock(x[2]) if y[0] == "expr"] in (["--" + nc], [nc + "--"], [nc + "-=1"]) \
+                    and len(_unblock(x[2])) == 1:
+                lines.append("%slet uncounted := %s" % (ind, boo(conv(x[1], env))))
+            elif x[0] == "if" and x[3] is None and top and i == len(stmts) - 1:
+                lines.append("%sif %s then" % (ind, boo(conv(x[1], env))))
+                seq(_unblock(x[2]), ind + "  ", False)
+                lines.append(ind + "  (t, b, acc, g, uncounted)")
+                lines.append(ind + "else (t, b, acc, g, uncounted)")
+                return True
+            else:
+                raise TranslateError("checkAndContinue: statement outside the grammar: %s" % (key(x[1]) if x[0] == "expr" else x[0]))
+        return False
+    closed = seq(st, "  ", True)
+    if not closed:
+        lines.append("  (t, b, acc, g, uncounted)")
+    if not seen_ri[0]:
+        raise TranslateError("checkAndContinue: setReceivingIndex(handle, *index) missing")
+    out.append("/-- the body of the loop over the completed requests of `checkAndContinue`, for one completed request:")
+    out.append("    (tracker, buffer, accumulator, `some` result of comm_func if a new communication was set up, `--no_completed` happened) -/")
+    out.append("def checkAndContinueBody {σ β γ : Type} (getCount valid : Bool)")
+    out.append("    (bufferFunc : Tracker → MessageBuffer β → Nat → σ → Tracker × MessageBuffer β × σ)")
+    out.append("    (commFunc : Tracker → MessageBuffer β → Tracker × MessageBuffer β × γ)")
+    out.append("    (count : Nat) (t : Tracker) (b : MessageBuffer β) (acc : σ) :")
+    out.append("    Tracker × MessageBuffer β × σ × Option γ × Bool :=")
+    out.extend(lines)
+
+
+def _progress_loops(src, out):
+    """the three progress loops: which counter guards / is decremented by which call on which vectors, checked for
+    consistency (name-independent): guard = the decremented counter (or validRecvRequests of the request vector handed to
+    the call), loop condition = sum of exactly the decremented counters, counter initialised from the request vector
+    (variable path: count_if) resp. reduced over the tracker vector (fixed path: empty trackers) the call works on,
+    and (trackers, buffers, requests) of the call = a triple set up together by one setupRequests call with the
+    functor of that role."""
     rows = []
-    for fn in ("communicateSizes", "communicateVariableSize"):
+    for fn in ("communicateFixedSize", "communicateSizes", "communicateVariableSize"):
         body, _ = _region(src, r"VariableSizeCommunicator\s*<\s*Allocator\s*>\s*::\s*" + fn + r"\s*\([^)]*\)\s*\{", fn)
-        for m in re.finditer(r"\b(\w+)\s*=\s*std\s*::\s*count_if\s*\(\s*(\w+)\s*\.\s*begin\s*\(\s*\)\s*,\s*(\w+)\s*\.\s*end\s*\(\s*\)\s*,\s*(\w+)\s*\)", body):
-            if m.group(2) != m.group(3):
-                raise TranslateError("%s: count_if over a mixed range" % fn)
-            lam = re.search(r"\b" + m.group(4) + r"\s*=\s*\[\s*\]\s*\(([^)]*)\)\s*\{\s*return\s+([^;]*);", body)
-            if not lam:
-                raise TranslateError("%s: predicate %s not found" % (fn, m.group(4)))
-            p = _params(lam.group(1))[0]
-            pred = re.sub(r"\s+", "", lam.group(2))
-            if pred not in (p + "!=MPI_REQUEST_NULL", "MPI_REQUEST_NULL!=" + p, "!(" + p + "==MPI_REQUEST_NULL)"):
-                raise TranslateError("%s: predicate of count_if is not `request != MPI_REQUEST_NULL`" % fn)
-            rows.append((fn, m.group(1), m.group(2)))
-    out.append("/-- (function, counter, request vector whose non-null entries initialise it) -/")
-    out.append("def counterInit : List (String × String × String) := [%s]" %
-               ", ".join('("%s", "%s", "%s")' % r for r in rows))
+        body = re.sub(r"\b(\w+)\s*<[^;()]*?>\s*\(\s*\)", r"\1()", body)
+        # setupRequests triples
+        triples = {}
+        for m in re.finditer(r"\bsetupRequests\s*\(", body):
+            j = _match(body, m.end() - 1, "(", ")")
+            a = [re.sub(r"\s+", "", x) for x in _split(body[m.end():j])]
+            if len(a) != 6:
+                raise TranslateError("%s: setupRequests with %d arguments" % (fn, len(a)))
+            triples[(a[1], a[2], a[3])] = a[4]
+        # count_if initialisations
+        init = {}
+        for m in re.finditer(r"\b(\w+)\s*=\s*std\s*::\s*count_if\s*\(\s*(\w+)\s*\.\s*begin\s*\(\s*\)\s*,\s*(\w+)\s*\.\s*end", body):
+            if m.group(2) == m.group(3):
+                init[m.group(1)] = m.group(2)
+        # fixed path: `for(.. i=X.begin() ..) if(i->empty()) --C;`
+        red = {}
+        for m in re.finditer(r"=\s*(\w+)\s*\.\s*begin\s*\(\s*\)[^;]*;[^;]*;[^)]*\)\s*if\s*\(\s*\w+\s*->\s*empty\s*\(\s*\)\s*\)\s*--\s*(\w+)\s*;", body):
+            red[m.group(2)] = m.group(1)
+        wm = re.search(r"\bwhile\s*\(", body)
+        if not wm:
+            raise TranslateError("%s: progress loop not found" % fn)
+        j = _match(body, wm.end() - 1, "(", ")")
+        cond = _P(_tokens(body[wm.end():j])).expr()
+        k = body.index("{", j)
+        loop = _parse_body(body[k + 1:_match(body, k)])
+
+        def summands(e):
+            if e[0] == "bin" and e[1] == "+":
+                return summands(e[2]) + summands(e[3])
+            return [key(e)]
+        cs = summands(cond)
+        dec = []
+        entries = []
+        for st in loop:
+            if st[0] != "if" or st[3] is not None:
+                raise TranslateError("%s: statement outside the grammar in the progress loop" % fn)
+            inner = _unblock(st[2])
+            if len(inner) != 1 or inner[0][0] != "expr" or inner[0][1][0] != "asg" or inner[0][1][1] != "-=" or inner[0][1][3][0] != "call":
+                raise TranslateError("%s: `counter -= check..(..)` expected in the progress loop" % fn)
+            c = key(inner[0][1][2])
+            callee = key(inner[0][1][3][1])
+            args = [key(x) for x in inner[0][1][3][2]]
+            if callee == "checkSendAndContinueSending":
+                role, tr, rq, bf, functor = "send", args[1], args[2], args[3], "SetupSendRequest()"
+            elif callee == "checkReceiveAndContinueReceiving":
+                role, tr, rq, bf, functor = "recv", args[1], args[2], args[3], "SetupRecvRequest()"
+            elif callee == "receiveSizeAndSetupReceive":
+                role, tr, rq, bf, functor = "size", args[1], args[3], args[4], None
+            elif callee == "checkAndContinue":
+                role, tr, rq, bf, functor = "recv", args[1], args[2], args[4], "SetupRecvRequest()"
+                if args[3] != args[2] or args[6:] != ["UnpackSizeEntries()", "SetupRecvRequest()"]:
+                    raise TranslateError("%s: checkAndContinue called with %s" % (fn, args))
+            else:
+                raise TranslateError("%s: unknown call %s in the progress loop" % (fn, callee))
+            entries.append((role, key(st[1]), c, tr, rq, bf, functor))
+            dec.append(c)
+        size_triple = [(tr, bf, rq) for (role, g, c, tr, rq, bf, functor) in entries if role == "size"]
+        for (role, g, c, tr, rq, bf, functor) in entries:
+            if role == "size":
+                # one scalar per neighbour: the counter starts at interface_->size(); the data receive is set up by the call
+                rows.append((fn, role, g == c, True, True))
+                continue
+            guard_ok = g == c or g == "validRecvRequests(%s)" % rq
+            init_ok = (init.get(c) == rq) if fn != "communicateFixedSize" else (red.get(c) == tr)
+            if (tr, bf, rq) in triples:
+                triple_ok = triples[(tr, bf, rq)] == functor
+            else:
+                triple_ok = role == "recv" and size_triple == [(tr, bf, rq)]
+            rows.append((fn, role, guard_ok, init_ok, triple_ok))
+        rows.append((fn, "loop", sorted(cs) == sorted(dec), len(set(dec)) == len(dec), True))
+    out.append("/-- (function, role of the call, guard consistent, counter initialised over the vectors the call works on,")
+    out.append("    (trackers, buffers, requests) set up together with the functor of that role); the row \"loop\": loop condition =")
+    out.append("    sum of the decremented counters, every counter decremented by one call -/")
+    out.append("def progressLoops : List (String × String × Bool × Bool × Bool) := [%s]" %
+               ", ".join('("%s", "%s", %s, %s, %s)' % (a, b, str(c).lower(), str(d).lower(), str(e).lower()) for a, b, c, d, e in rows))
+
+
+def _progress(src, out):
+    """data table: wrappers -> the request vectors, functors and flags they hand to checkAndContinue"""
     wr = []
     for fn in ("receiveSizeAndSetupReceive", "checkSendAndContinueSending", "checkReceiveAndContinueReceiving"):
         body, m = _region(src, r"std\s*::\s*size_t\s+" + fn + r"\s*\(([^)]*)\)\s*\{", fn)
@@ -1303,6 +1536,8 @@ def translate(repo):
     _defaults(src, consts)
     _directions(src, out)
     _size_handle(src, out)
+    _check_and_continue(src, out)
+    _progress_loops(src, out)
     _progress(src, out)
     for k in ("dataSendTag", "dataRecvTag", "scalarSendTag", "scalarRecvTag", "scalarSendCount", "scalarRecvCount"):
         out.append("def %s : Nat := %d" % (k, consts[k]))
